@@ -263,6 +263,9 @@ func (x *Exec) pureApp(st *State, name string, f *ssa.Function, c *Contract, arg
 }
 
 func (x *Exec) applyContract(st *State, name string, c *Contract, f *ssa.Function, args []Val, pos token.Pos, rt types.Type) Val {
+	if c.TrustedPost {
+		x.trusted["postconditions of "+name+" are assumed (body checked for safety only): "+c.TrustWhy] = true
+	}
 	if c.Trusted {
 		why := c.TrustWhy
 		if why == "" {
